@@ -348,3 +348,50 @@ Lemma midbump_example :
   end = ((31600 :: 60000 :: 1999000 :: 1000 :: 1000000 :: nil)%list,
          (3091600 :: 3060000 :: 3000000 :: 1001000 :: 1000000 :: nil)%list, true, 1000000).
 Proof. vm_compute. reflexivity. Qed.
+
+(** ** Monotonicity: a larger value never lowers the amount of any hop *)
+Lemma compute_fees_mono a a' f r r' :
+  0 <= rf_proportional_millionths f -> a <= a' ->
+  compute_fees a f = Some r -> compute_fees a' f = Some r' -> r <= r'.
+Proof.
+  intros Hp Ha. unfold compute_fees, opt_bind, chk_mul, chk_add.
+  destruct (a * rf_proportional_millionths f <? 2 ^ 64); [|discriminate].
+  destruct (a' * rf_proportional_millionths f <? 2 ^ 64); [|discriminate].
+  destruct (rf_base_msat f + a * rf_proportional_millionths f / 1000000 <? 2 ^ 64); [|discriminate].
+  destruct (rf_base_msat f + a' * rf_proportional_millionths f / 1000000 <? 2 ^ 64); [|discriminate].
+  intros [= <-] [= <-].
+  assert (a * rf_proportional_millionths f / 1000000 <= a' * rf_proportional_millionths f / 1000000).
+  { apply Z.div_le_mono; [lia|nia]. }
+  lia.
+Qed.
+
+Theorem exact_policy_mono v v' hs hs' :
+  Forall2 same_policy hs hs' -> Forall fees_nonneg hs ->
+  exact_policy v hs -> exact_policy v' hs' -> v <= v' ->
+  Forall2 Z.le (amounts hs) (amounts hs').
+Proof.
+  intros Hsame. induction Hsame as [|h h' t t' [Hf Hm] Ht IH]; intros Hnn He He' Hv; [constructor|].
+  inversion Hnn as [|? ? _ Hnnt]; subst.
+  destruct He as [Hh Het]. destruct He' as [Hh' Het'].
+  specialize (IH Hnnt Het Het' Hv).
+  change (amounts (h :: t)) with (first_amount (h :: t) :: amounts t).
+  change (amounts (h' :: t')) with (first_amount (h' :: t') :: amounts t').
+  constructor; [|exact IH].
+  destruct Ht as [|h2 h2' t2 t2' [Hf2 Hm2] Ht2].
+  - unfold first_amount. simpl. lia.
+  - destruct Hh as (req & Hreq & ->). destruct Hh' as (req' & Hreq' & ->).
+    assert (first_amount (h2 :: t2) <= first_amount (h2' :: t2')) as Hle.
+    { unfold first_amount. remember (amounts (h2 :: t2)) as A eqn:HA. remember (amounts (h2' :: t2')) as A' eqn:HA'.
+      destruct IH as [|x y ? ? Hxy _]; [simpl in HA; discriminate HA|exact Hxy]. }
+    rewrite <-Hf2 in Hreq'.
+    inversion Hnnt as [|? ? [_ Hp2] _]; subst.
+    pose proof (compute_fees_mono _ _ _ _ _ Hp2 Hle Hreq Hreq'). lia.
+Qed.
+
+Lemma mono_example :
+  match recompute midbump_hops 1000000, recompute midbump_hops 4000000 with
+  | Some (hs, _), Some (hs', _) => (amounts hs, amounts hs')
+  | _, _ => (nil, nil)
+  end = ((3091600 :: 3060000 :: 3000000 :: 1001000 :: 1000000 :: nil)%list,
+         (4147060 :: 4105010 :: 4024520 :: 4004000 :: 4000000 :: nil)%list).
+Proof. vm_compute. reflexivity. Qed.
